@@ -317,6 +317,39 @@ def syntax_files(ctx, n, bad=0.0, fancy=0.35):
         out.append(dict(items=it, final_newline=fn, wf=(wf == "wf"), match=(match == "match"), data=bytes.fromhex(hd), want=bytes.fromhex(want)))
     return out
 
+def swap_bytes(bs, a, b):
+    return bytes(b if c == a else a if c == b else c for c in bs)
+
+def swap_in_parse_output(out, a, b):
+    """the canonical output of the `parse` operation with the bytes a and b exchanged inside every name, note and message (amounts stay)"""
+    def hxs(h): return swap_bytes(bytes.fromhex(h.decode()), a, b).hex().encode()
+    lines = []
+    for l in out.split(b"\n"):
+        if l.startswith(b"E "): lines.append(b"E " + hxs(l[2:]))
+        elif l.startswith(b"N ") and l != b"N <nil>":
+            m = re.match(rb"^N ([0-9a-f]*) \[(.*)\] (-|\{.*\})$", l)
+            if not m: lines.append(l); continue
+            els = b",".join(hxs(e.split(b":")[0]) + b":" + e.split(b":")[1] for e in m.group(2).split(b",") if e)
+            meta = m.group(3) if m.group(3) == b"-" else b"{" + b",".join(hxs(x.split(b":")[0]) + b":" + hxs(x.split(b":")[1]) for x in m.group(3)[1:-1].split(b",") if x) + b"}"
+            lines.append(b"N " + hxs(m.group(1)) + b" [" + els + b"] " + meta)
+        else: lines.append(l)
+    return b"\n".join(lines)
+
+def comment_char_relation(ctx, datas, tag):
+    """the parser with another comment character (parser.Config{CommentChar: c}) reads a file in which c and '#' have changed places exactly as the default parser
+    reads the original - names, notes, amounts, error messages and line numbers, with the two bytes exchanged (implementation against itself)"""
+    base = run.run_pub(ctx.impl, [run.req(op="parse", data=d) for d in datas])
+    for cc in (ord(";"), ord("%"), ord("!")):
+        other = run.run_pub(ctx.impl, [run.req(op="parse", data=swap_bytes(d, 35, cc), cc=cc) for d in datas])
+        for d, x, y in zip(datas, base, other):
+            ctx.count(); ctx.tally("comment_char", chr(cc))
+            # the TEXT of a note is left out of the comparison: getMetadataPair strips the literal '#' whatever the configured character is, so under another
+            # character a note keeps its marker (a quirk of the unchanged code that no property speaks about); records, entries, amounts and errors are compared
+            drop_meta = lambda o: re.sub(rb"\] \{[^}\n]*\}$", b"] {..}", o, flags=re.M)
+            if drop_meta(swap_in_parse_output(x, 35, cc)) != drop_meta(y):
+                ctx.violation(tag, "with comment character %r the parser reads the file with '#' and %r exchanged differently from how the default parser reads the original: %r / %r"
+                              % ((chr(cc), chr(cc)) + first_diff(swap_in_parse_output(x, 35, cc), y)), dict(kind="parse", data=swap_bytes(d, 35, cc), cc=cc, original=d, default_result=x, impl=y))
+
 def check_C04(ctx):
     r = ctx.rng
     # exhaustive short inputs over a 12-token alphabet
@@ -340,6 +373,7 @@ def check_C04(ctx):
         if got != f["want"] or not i.endswith(b"R ok"):
             ctx.violation("C04:records-differ-from-file", "the parser's records differ from the file's records: expected %r got %r" % first_diff(f["want"], got),
                           dict(kind="parse", data=f["data"], items=f["items"], expected=f["want"], impl=i))
+    comment_char_relation(ctx, [f["data"] for f in wf[:ctx.scale(1500, 20000)]], "C04:other-comment-character")
     for f in wf[:2]: ctx.sample(dict(file=f["data"]))
     ctx.tally("files", "well-formed", len(wf)); ctx.tally("files", "generator produced ill-formed (skipped)", len(fs) - len(wf))
     # values: long decimals, ties, subnormals (correct rounding is what strconv does; the model's parse_float is compared bit for bit)
@@ -408,6 +442,7 @@ def check_C09(ctx):
         if i["status"] == "ok" and out_lines != expect:
             ctx.violation("C09:lint-output", "lint output is not the list of malformed lines in file order: expected %r got %r" % (expect[:3], out_lines[:3]),
                           dict(kind="cli", case=c, impl=i, expected=expect))
+    comment_char_relation(ctx, [f["data"] for f in fs[:ctx.scale(1000, 15000)]], "C09:other-comment-character")
     for f in fs[:2]: ctx.sample(dict(file=f["data"]))
     # every file-reading command fails with the first malformed line
     cases = []
@@ -481,6 +516,13 @@ def check_C10(ctx):
         ctx.count()
         if i.endswith(b"R ok"):
             ctx.violation("C10:read-fault-reported-as-success", "ParseStreamCallback returned nil although the reader failed at offset %d" % f, dict(kind="parse", data=d, fault=f, chunk=7, impl=i))
+    # the channel form of the parser (library API): a reader that fails is reported on the Errors channel, never as plain completion
+    sub = list(zip(datas, faults))[:: max(1, len(datas) // ctx.scale(150, 2000))]
+    cres = run.run_pub(ctx.impl, [run.req(op="chan", data=d, fault=f, policy="drain") for d, f in sub])
+    for (d, f), o in zip(sub, cres):
+        ctx.count()
+        if not any(l.startswith(b"E ") for l in o.split(b"\n")):
+            ctx.violation("C10:channel-parser-read-fault-as-completion", "Parser.ParseStream delivered %r although the reader failed at offset %d" % (o[-60:], f), dict(kind="chan", data=d, fault=f, policy="drain", impl=o))
     # long lines: 65535 passes, 65536 and more is an error; first / middle / last position, terminated or not, CRLF
     datas = []
     for n in (65535, 65536, 70000):
